@@ -239,6 +239,7 @@ def explore(build, check, prop, cfg_label, bound=1, max_exec=None, loop_cap=200,
     while stack:
         prefix = stack.pop()
         ex = run_tuner(build, Chooser(prefix), loop_cap)
+        vs = check(ex)
         clean_scratch()
         cov.add("evaluations")
         cov.add("traces_validated_against_impl")
@@ -255,7 +256,6 @@ def explore(build, check, prop, cfg_label, bound=1, max_exec=None, loop_cap=200,
         ndev = sum(1 for c in prefix if c != 0)
         n_loops = sum(1 for e in ex.log if e[0] == "loop_start")
         cov.add("transitions", n_loops)
-        vs = check(ex)
         if state_of is not None:
             for st in state_of(ex):
                 states.add(st)
